@@ -305,7 +305,9 @@ META = {
     "children; `import a.b` registers `a`; every call that turns Python text into a command is control-dependent on "
     "`not is_in_scope(<same node>)` with a two-entry allow-list; function/class scopes are pushed and popped exactly "
     "once on every normal path with the name outside and the parameters inside; lambdas/comprehensions exempt; "
-    "Execer.exec/eval and the shell execute only the code object compiled from the complete input. Tree equality "
+    "Execer.exec/eval and the shell execute only the code object compiled from the complete input; the root "
+    "context handed to the parser contains dir(builtins) evaluated during the same compile and nothing read from "
+    "state kept across compiles (names appear in builtins mid-session). Tree equality "
     "with CPython for every program is not decided.",
     "note": "Decides the listed structural clauses, not the behaviour. Binder list = the property's list intersected "
     "with the node kinds of the running interpreter's ast module.",
